@@ -267,12 +267,22 @@ def run(ctx: Ctx) -> Outcome:
     # pass 1 and 2: every predicate on every object, then again after an ==-equal twin was asked (cache stability)
     answers: dict = {}
     names = list(objs)
+    from ..terms import clear_typelib_caches
+    # the asserted answer is the *cold* one: every memo of the library is cleared before each question, so that an
+    # ==-equal twin asked earlier (Optional[int] before Union[None, int]) cannot answer in the object's place
     for p in PREDICATES:
         fn = getattr(inspection, p)
         for n in names:
             o, grp = objs[n]
+            clear_typelib_caches()
             a, exc = ask(fn, o)
             answers[(p, n)] = (a, exc)
+    # then warm, in catalogue order and in reverse order: answers must not move (stability across calls)
+    clear_typelib_caches()
+    for p in PREDICATES:
+        fn = getattr(inspection, p)
+        for n in names:
+            ask(fn, objs[n][0])
     # ask everything in reverse order as well, so that equal-but-different objects meet the memos both ways
     again: dict = {}
     for p in PREDICATES:
@@ -295,7 +305,8 @@ def run(ctx: Ctx) -> Outcome:
             groups.setdefault(grp, []).append(n)
     for p in PREDICATES:
         for grp, members in groups.items():
-            events.append({"ev": "spelling", "answers": [enc(answers[(p, n)][0]) for n in members]})
+            events.append({"ev": "spelling", "p": p, "fs": [facts(objs[n][0]) for n in members],
+                           "answers": [enc(answers[(p, n)][0]) for n in members]})
             meta.append({"p": p, "obj": grp, "exc": ",".join(members)})
     # accessors: origin / args / unwrap against typing
     for n in names:
